@@ -124,6 +124,19 @@ def run(ctx):
                               f"{sorted(WRITERS_OTHER) + sorted(WRITERS_SELF)}: code of one file could run against another file's globals",
                               key=f"write {t.value.id}.{t.attr}", node=n, rel=u.rel)
 
+    # the method that re-targets an evaluator in place (it also rewrites slot 0 of the scope stack *object*) is the implementation of pyscript.set_global_ctx() only:
+    # used where the previous state is saved by reference and restored later (EvalFunc.call), it would corrupt what was saved
+    callers = [(u.uid, n) for u in program.functions() for n in body_walk(u.node)
+               if isinstance(n, ast.Call) and isinstance(n.func, ast.Attribute) and n.func.attr == "set_global_ctx" and not (isinstance(n.func.value, ast.Name) and n.func.value.id == "pyscript")]
+    allowed = {u for u, _ in callers if u.endswith("set_global_ctx_factory.set_global_ctx")}
+    if not allowed:
+        raise AnalysisError("the implementation of pyscript.set_global_ctx() (set_global_ctx_factory.set_global_ctx) no longer calls AstEval.set_global_ctx: who-may-call table lost its anchor")
+    for uid, n in callers:
+        ctx.check(uid in allowed, "R11.2", uid, "AstEval.set_global_ctx called only by pyscript.set_global_ctx()",
+                  msg=f"{uid}: `{short(n)}` re-targets an evaluator with set_global_ctx(), which also overwrites slot 0 of the scope-stack list in place: where the caller's scope stack was saved "
+                  f"for a later restore (a cross-file call) the saved list itself is changed, and after the call the calling file's module level runs against the callee file's globals",
+                  key="set_global_ctx caller", node=n, rel=uid.split("::")[0])
+
     # R11.3 module import ---------------------------------------------------------------------------------------------------
     ctx.rule("R11.3", "module_import: manager lookup before file lookup; module marked loaded only after success; relative levels resolve like importlib; a module loaded under any candidate name is reused", floor=30)
     uid = "global_ctx.py::GlobalContext.module_import"
@@ -504,6 +517,11 @@ def import_candidate_cases(program):
                     bad = f"package candidate {name}: relative imports inside it would resolve against {pkg!r} instead of {base!r}"
             elif path == base + ".py":
                 kinds.add("module")
+                # a single-file module of a package resolves its own relative imports against the directory it lies in (None: not inside a package)
+                inside_package = base.count("/") >= 2  # <root>/<package>/.../<file>: the file lies inside a package
+                if (inside_package and pkg != base.rsplit("/", 1)[0]) or (not inside_package and pkg not in (None, base)):
+                    bad = (f"single-file candidate {name} ({path}): its relative imports would resolve against {pkg!r} instead of its directory {base.rsplit('/', 1)[0]!r} - "
+                           f"`from .sib import x` inside it then names a context that does not match the file loaded")
             else:
                 bad = f"candidate context {name} is looked up in file {path!r}; expected {base + '/__init__.py'!r} or {base + '.py'!r}"
         if bad is None and kinds != {"package", "module"}:
